@@ -166,8 +166,13 @@ int main(int argc, char** argv)
 {
     // protocol fd: a private duplicate of stdout, so that nothing printed by the SUT can corrupt it
     int proto = ::dup(1);
-    bool nofork = false;
-    for (int i = 1; i < argc; i++) { if (std::string(argv[i]) == "--nofork") nofork = true; }
+    bool nofork = false, notemplate = false;
+    for (int i = 1; i < argc; i++)
+    {
+        if (std::string(argv[i]) == "--nofork") nofork = true;
+        if (std::string(argv[i]) == "--notemplate") notemplate = true;
+    }
+    if (!notemplate) sim::build_template();
     signal(SIGPIPE, SIG_IGN);
     std::string line;
     while (std::getline(std::cin, line))
